@@ -158,7 +158,7 @@ func marshalUnknownValue(rng cty.ValueRange, path cty.Path, enc *msgpack.Encoder
 	return nil
 }
 
-func unmarshalUnknownValue(dec *msgpack.Decoder, ty cty.Type, path cty.Path) (cty.Value, error) {
+func unmarshalUnknownValue(dec *msgpack.Decoder, ty cty.Type, path cty.Path) (ret cty.Value, err error) {
 	// The next item in the stream should be a msgpack extension value,
 	// which might be zero-length for a totally unknown value, or it might
 	// contain a mapping describing some type-specific refinements.
@@ -219,6 +219,21 @@ func unmarshalUnknownValue(dec *msgpack.Decoder, ty cty.Type, path cty.Path) (ct
 		// in a backward-compatible way.
 		return cty.UnknownVal(ty), nil
 	}
+
+	// The refinement builder treats refinements that contradict each other
+	// (null and not null, a lower bound above the upper bound, two different
+	// prefixes, ...) as a bug in the caller and panics with a message. Here
+	// the refinements are untrusted input, so that must be an error instead.
+	defer func() {
+		if r := recover(); r != nil {
+			msg, ok := r.(string)
+			if !ok {
+				panic(r) // not one of the builder's consistency checks
+			}
+			ret = cty.DynamicVal
+			err = path.NewErrorf("failed to decode msgpack extension body: inconsistent refinements: %s", msg)
+		}
+	}()
 
 	builder := cty.UnknownVal(ty).Refine()
 	for i := 0; i < entryCount; i++ {
